@@ -73,6 +73,7 @@ def _case(draw):
         case["forcing"] = "ustar"
     else:
         case["ustar"] = KAP * speed / (math.log(zm / z0) + _psi(zm / mol))
+    case["twin"] = draw(st.sampled_from(["prsc", "closure", "wind", "n", "mol", "none"]))
     if draw(st.integers(0, 2)) == 0:
         h = zm * draw(gen.logfl(0.5, 10.0))
         dh = zm * draw(gen.logfl(1.0, 4.0))
@@ -264,4 +265,28 @@ def check_case(case):
         out.bad(f"phi disagrees with the Kormann-Meixner module's _phiC for integer-typed heights {zi.tolist()}")
 
     out.nontrivial = case["stab"] in ("stable", "unstable") or custom
+
+    # a second call in the same process that differs in exactly ONE argument must be judged by the same oracles
+    # (a profile table remembered from the previous call and keyed on part of the arguments would show here)
+    tw = case.get("twin", "none")
+    if tw != "none" and not case.get("_is_twin") and not out.fail:
+        t = dict(case)
+        t["_is_twin"] = True
+        if tw == "prsc":
+            t["prsc"] = 0.7 if case["prsc"] != 0.7 else 1.35
+        elif tw == "closure" and cl in ("MOST", "MOSTM", "CONSTANT"):
+            t["closure"] = {"MOST": "MOSTM", "MOSTM": "CONSTANT", "CONSTANT": "MOST"}[cl]
+        elif tw == "wind":
+            t["wind"] = [-vm, um]  # same speed, turned by 90 degrees
+        elif tw == "n":
+            t["n"] = n + 1
+            t.pop("stretch", None), t.pop("domain_height", None)
+        elif tw == "mol" and cl != "OAAHOC" and case["stab"] != "neutral":
+            t["mol"] = 2.0 * L
+            # keep the pair (z0, ustar) consistent for the new stability
+            t["ustar"] = KAP * U / (math.log(zm / case["z0"]) + _psi(zm / t["mol"]))
+        o2 = check_case(t)
+        for f in o2.fail:
+            out.bad(f"second call differing only in {tw}: {f}")
+        out.label("twin=" + tw)
     return out
